@@ -22,6 +22,7 @@ def _fuzzjob(binname, replay_bin, runs, procs, params=None, max_len=2400):
 
 
 BINARIES = {
+    "qtsan": {"sources": ["harness/queue_tsan.cpp", "engine/rc_driver.cpp"], "flavour": "tsan", "libs": RC_LIBS, "harness": "qtsan"},
     "tsfmt_fuzz": _fuzzbin("harness/tsfmt.cpp"),
     "pattern_fuzz": _fuzzbin("harness/pattern.cpp"),
     "named_fuzz": _fuzzbin("harness/named.cpp"),
@@ -82,6 +83,7 @@ HOOKS = {
 ENGINES = {
     "sim": {"path": "engine/sim.h", "serves": ["C03", "C05", "C06", "C08", "C09", "C10", "C16", "C17", "C18", "C20"],
             "kind": "harness-owned backend schedule: scheduler thread == ManualBackendWorker, baton-driven worker threads, interposed nanosleep/clock_gettime (blocked state, virtual time), yield-point bursts; harness/sim_main.cpp + sim_ops.h + sim_oracles.h"},
+    "qtsan": {"path": "harness/queue_tsan.cpp", "serves": ["C01", "C02"], "kind": "real two-thread stress of the unmodified std::atomic queue code under ThreadSanitizer with generated configurations"},
     "wmm": {"path": "engine/wmm.h", "serves": ["C01", "C02", "C09"],
             "kind": "std::atomic retarget shim with per-location store history, vector clocks, coherence floors, choice-driven stale loads, coroutine scheduler, payload happens-before race detector"},
     "rcdrv": {"path": "engine/rc_driver.cpp", "serves": ["C%02d" % i for i in range(1, 21)],
@@ -156,7 +158,7 @@ PROPERTIES = {
                             "queue reads OR a blocked worker OR an exited thread with unwritten statements); cases where some "
                             "statement missed the deadline are labelled precondition_violated and only checked for delivery"),
         "assumptions": ["grace == 0 and user clocks carry no ordering claim (documented)", "virtual clock strictly monotonic (+1 ns per read)"],
-        "jobs": _simjobs("C05", ["sim_bb1k", "sim_ub", "sim_bb256"], quick_procs=3),
+        "jobs": _simjobs("C05", ["sim_bb4k", "sim_ub", "sim_bb1k"], quick_procs=3),
     },
     "C06": {
         "technique": "stateful property-based testing with a harness-owned backend schedule: oracle evaluated at the instant flush_log() returns; stall-state predicate for liveness",
@@ -283,6 +285,9 @@ PROPERTIES = {
             {"bin": "wmm", "params": {"prop": "C01"},
              "quick": {"cases": 1500, "procs": 8, "maxlen": 700},
              "thorough": {"cases": 25000, "procs": 16, "maxlen": 1400}},
+            {"bin": "qtsan", "params": {"prop": "C01"}, "confirm": 2,
+             "quick": {"cases": 80, "procs": 2, "maxlen": 2400},
+             "thorough": {"cases": 2500, "procs": 8, "maxlen": 2400}},
         ],
     },
     "C02": {
@@ -302,6 +307,9 @@ PROPERTIES = {
             {"bin": "wmm", "params": {"prop": "C02"},
              "quick": {"cases": 1500, "procs": 8, "maxlen": 700},
              "thorough": {"cases": 25000, "procs": 16, "maxlen": 1400}},
+            {"bin": "qtsan", "params": {"prop": "C02"}, "confirm": 2,
+             "quick": {"cases": 80, "procs": 2, "maxlen": 2400},
+             "thorough": {"cases": 2500, "procs": 8, "maxlen": 2400}},
         ],
     },
     "C04": {
